@@ -50,7 +50,11 @@ fn script(which: usize) -> Vec<Op> {
     ]
 }
 
-fn run_script(which: usize, virtual_mode: bool, times: &[u64]) -> (Vec<(usize, Vec<u32>, bool)>, Vec<u64>, Vec<u64>) {
+/// Returns the observations, the instants they were made at, the deadlines set, and the worst
+/// "slack" of the run in ms: how long an observation took from its timestamp to the end of its
+/// polls, and how long after the preceding observation a Set / Cancel was executed (the stand-in
+/// is driven as if both were zero).
+fn run_script(which: usize, virtual_mode: bool, times: &[u64]) -> (Vec<(usize, Vec<u32>, bool)>, Vec<u64>, Vec<u64>, u64) {
     clock::set_virtual(virtual_mode);
     let started = std::time::Instant::now();
     let mut measured = Vec::new();
@@ -62,14 +66,19 @@ fn run_script(which: usize, virtual_mode: bool, times: &[u64]) -> (Vec<(usize, V
     let mut timeouts = Vec::new();
     let mut out = Vec::new();
     let mut events = Events::with_capacity(8);
+    let mut slack = 0u64;
+    let mut last_obs_end = 0u64;
     for (i, op) in script(which).into_iter().enumerate() {
         match op {
             Op::Set(ms, v) => {
                 let now = if virtual_mode { clock::now_ns() / 1_000_000 } else { started.elapsed().as_millis() as u64 };
+                slack = slack.max(now.saturating_sub(last_obs_end));
                 deadlines.push(now + ms);
                 timeouts.push(timer.set_timeout(Duration::from_millis(ms), v))
             }
             Op::Cancel(ix) => {
+                let now = if virtual_mode { clock::now_ns() / 1_000_000 } else { started.elapsed().as_millis() as u64 };
+                slack = slack.max(now.saturating_sub(last_obs_end));
                 let _ = timer.cancel_timeout(&timeouts[ix]);
             }
             Op::WaitPoll(ms) | Op::WaitNoPoll(ms) => {
@@ -89,11 +98,14 @@ fn run_script(which: usize, virtual_mode: bool, times: &[u64]) -> (Vec<(usize, V
                     }
                 }
                 out.push((i, fired, woke));
+                let end = if virtual_mode { clock::now_ns() / 1_000_000 } else { started.elapsed().as_millis() as u64 };
+                slack = slack.max(end.saturating_sub(*measured.last().unwrap()));
+                last_obs_end = end;
             }
         }
     }
     clock::set_virtual(false);
-    (out, measured, deadlines)
+    (out, measured, deadlines, slack)
 }
 
 pub fn run(args: &Args) {
@@ -104,26 +116,39 @@ pub fn run(args: &Args) {
     // jitter of a busy machine) makes the attempt inconclusive: retry, never alarm.
     let mut all_conclusive = true;
     for which in 0..2usize {
+        // An attempt is conclusive only if the real run was observed away from its deadlines
+        // (160 ms: tick granularity + jitter) and nothing in it was delayed by more than 40 ms
+        // (the stand-in is driven as if observations and the steps between them took no time).
+        // A mismatch is an alarm only if a second conclusive attempt shows it again.
         let mut conclusive = false;
-        for attempt in 0..2 {
-            let (real, times, deadlines) = run_script(which, false, &[]);
+        let mut mismatches: Vec<String> = Vec::new();
+        for attempt in 0..4 {
+            let (real, times, deadlines, slack) = run_script(which, false, &[]);
             let close = times.iter().any(|t| deadlines.iter().any(|d| (*t as i64 - *d as i64).abs() < 160));
             part.evaluations += 1;
-            if close {
+            if close || slack > 40 {
                 part.outcome("inconclusive-attempt");
                 continue;
             }
-            let (virt, _, _) = run_script(which, true, &times);
+            let (virt, _, _, _) = run_script(which, true, &times);
             part.evaluations += 1;
-            part.sample(json!({"script": which, "attempt": attempt, "observed_at_ms": times, "real": format!("{:?}", real), "virtual": format!("{:?}", virt)}));
+            part.sample(json!({"script": which, "attempt": attempt, "observed_at_ms": times, "slack_ms": slack, "real": format!("{:?}", real), "virtual": format!("{:?}", virt)}));
             // fired values at every observation point; whether the poll handle woke up wherever
             // something fired and at every point of the swallowed-wake-up script
             let same = real.len() == virt.len() && real.iter().zip(virt.iter()).all(|(a, b)| a.1 == b.1 && ((a.1.is_empty() && which == 0) || a.2 == b.2));
-            if !same {
-                part.violation("timershim:differs", format!("script {} observed at {:?} ms: real timer {:?} vs stand-in {:?}", which, times, real, virt), json!({"engine":"seqx","check":"timershim"}));
+            if same {
+                conclusive = true;
+                mismatches.clear();
+                break;
             }
-            conclusive = true;
-            break;
+            mismatches.push(format!("script {} observed at {:?} ms: real timer {:?} vs stand-in {:?}", which, times, real, virt));
+            if mismatches.len() >= 2 {
+                conclusive = true;
+                break;
+            }
+        }
+        if mismatches.len() >= 2 {
+            part.violation("timershim:differs", mismatches.join(" | "), json!({"engine":"seqx","check":"timershim"}));
         }
         all_conclusive &= conclusive;
     }
@@ -131,7 +156,7 @@ pub fn run(args: &Args) {
     if all_conclusive {
         part.extra.insert("conformance".into(), json!("conclusive"));
     } else {
-        part.extra.insert("conformance".into(), json!("inconclusive: the machine was too busy to observe the real timer away from its deadlines (2 attempts per script); not a verdict"));
+        part.extra.insert("conformance".into(), json!("inconclusive: the machine was too busy to observe the real timer away from its deadlines (4 attempts per script); not a verdict"));
         part.sample(json!({"inconclusive": true}));
     }
     part.finish(args.out.as_deref());
